@@ -19,6 +19,7 @@ def main():
     man = json.load(open(os.path.join(HERE, "found", "MANIFEST.json")))
     env = dict(os.environ)
     env.setdefault("JOBLIB_ROOT", os.environ.get("PYVC_REPO") or "/repo")
+    env["PYTHONPATH"] = env["JOBLIB_ROOT"] + os.pathsep + env.get("PYTHONPATH", "")  # scenarios that simply `import joblib`
     known, cases = {}, 0
     for name, ent in sorted(man.items()):
         if prop not in ent["props"] or (ent.get("thorough_only") and tier != "thorough"):
